@@ -235,7 +235,8 @@ def tie_accelerations(c, rebound, exe):
     ad["var1S"] = Cmp("AD:var1S", 1e-12)
     ad["var2S-massless"] = Cmp("AD:var2S-massless", 1e-12)
     excl = {"softening": Cmp("excluded:softening", 0.0), "var2-massive-testparticles": Cmp("excluded:var2-massive-tp", 0.0),
-            "var1tp-massive-inactive": Cmp("excluded:var1tp-massive-inactive", 0.0)}
+            "tp-branch-massive-inactive": Cmp("excluded:tp-branch-massive-inactive", 0.0)}
+    variants = {}
     for case in range(ncases // 2):
         rng = c.rng.fork()
         n = rng.choice([2, 3, 3, 4, 5, 6, 8])
@@ -268,6 +269,13 @@ def tie_accelerations(c, rebound, exe):
             q = v.particles
             for i in range(n):
                 q[i].m, q[i].x, q[i].y, q[i].z = dat[i]
+        tp1, tp1b, tpdd = (gen_var(rng, 1, L, m0, False)[0] for _ in range(3))
+        if tptype == 0 and n - na >= 2:
+            vtp1 = sim.add_variation(testparticle=n - 1)
+            vtp1b = sim.add_variation(testparticle=n - 1)
+            vtp2 = sim.add_variation(order=2, testparticle=n - 1, first_order=vtp1, first_order_2=vtp1b)
+            for v_, d_ in ((vtp1, tp1), (vtp1b, tp1b), (vtp2, tpdd)):
+                v_.particles[0].m, v_.particles[0].x, v_.particles[0].y, v_.particles[0].z = d_
         clib.reb_simulation_update_acceleration(ctypes.byref(sim))
         acc = lambda q, k: [v for i in range(k) for v in (q[i].ax, q[i].ay, q[i].az)]
         info = dict(case=case, N=n, N_active=na, testparticle_type=tptype, G=G, particles=ps)
@@ -288,10 +296,61 @@ def tie_accelerations(c, rebound, exe):
             sc = [scale2(G, ps, da, db, dd, i) + 1e-300 for i in range(n)]
             inf = dict(info, var_a=da, var_b=db, var_2nd=dd)
             toks2 = gp_tokens(ps) + gp_tokens(da) + gp_tokens(db) + gp_tokens(dd)
-            # the C loop runs over all real pairs whatever N_active is: the all-pairs model must match bitwise
-            push(["var2", str(n), g] + toks2, lambda out, want=want, sc=sc, inf=inf: cm["var2S"].add(vals(out), want, sc, inf))
+            # unpatched code: the loop runs over all real pairs whatever N_active is (model accVar2); with
+            # fixes/C16-var-nactive.diff: active outer loop, test particles do not act (model accVar2Split).
+            # The compiled code must be bit-identical to one of the two.
+            hold = {}
+            push(["var2", str(n), g] + toks2, lambda out, hold=hold: hold.__setitem__("all", vals(out)))
+
+            def h2s(out, hold=hold, want=want, sc=sc, inf=inf):
+                split = vals(out)
+                ha = [d2h(x) for x in hold["all"]]; hs_ = [d2h(x) for x in split]; hw = [d2h(x) for x in want]
+                if hw == ha and hw != hs_:
+                    variants["var2:all-pairs"] = variants.get("var2:all-pairs", 0) + 1
+                    cm["var2S"].add(hold["all"], want, sc, inf)
+                elif hw == hs_ and hw != ha:
+                    variants["var2:split"] = variants.get("var2:split", 0) + 1
+                    cm["var2S"].add(split, want, sc, inf)
+                elif hw == ha:
+                    variants["var2:indistinguishable"] = variants.get("var2:indistinguishable", 0) + 1
+                    cm["var2S"].add(split, want, sc, inf)
+                else:
+                    cm["var2S"].add(hold["all"], want, sc, dict(inf, note="matches neither the all-pairs nor the N_active-aware model"))
+            push(["var2S"] + hdr + toks2, h2s)
             tgt = ad["var2S-massless"] if massless else excl["var2-massive-testparticles"]
             push(["ad2S"] + hdr + toks2, lambda out, want=want, sc=sc, inf=inf, tgt=tgt: tgt.add(vals(out), want, sc, inf))
+            # single test-particle variations of the last (inactive) particle, other inactive particles present
+            if n - na >= 2:
+                ti = n - 1
+                for v_, dat_, tag_ in ((vtp1, tp1, "var1tp"), (vtp2, tpdd, "var2tp")):
+                    want_t = acc(v_.particles, 1)
+                    xyz = [d2h(ps[ti][1]), d2h(ps[ti][2]), d2h(ps[ti][3])]
+                    allo = [ps[j] for j in range(n) if j != ti]
+                    acto = [ps[j] for j in range(na)]
+                    if tag_ == "var1tp":
+                        extra = [d2h(x) for x in tp1[1:]]
+                        sct = [scale1(G, ps, [tp1 if j == ti else [0.0] * 4 for j in range(n)], ti) + 1e-300]
+                    else:
+                        extra = [d2h(x) for x in tpdd[1:] + tp1[1:] + tp1b[1:]]
+                        z_ = lambda d: [d if j == ti else [0.0] * 4 for j in range(n)]
+                        sct = [scale2(G, ps, z_(tp1), z_(tp1b), z_(tpdd), ti) + 1e-300]
+                    hold2 = {}
+                    inft = dict(info, testparticle=ti, kind=tag_)
+                    push([tag_, g] + xyz + extra + [str(len(allo))] + gp_tokens(allo), lambda out, hold2=hold2: hold2.__setitem__("all", vals(out)))
+
+                    def htp(out, hold2=hold2, want_t=want_t, sct=sct, inft=inft, tag_=tag_):
+                        act_ = vals(out)
+                        hw = [d2h(x) for x in want_t]
+                        if hw == [d2h(x) for x in hold2["all"]]:
+                            variants[tag_ + ":all-real-j"] = variants.get(tag_ + ":all-real-j", 0) + 1
+                            cm[tag_].add(hold2["all"], want_t, sct, inft)
+                        else:
+                            variants[tag_ + ":active-j"] = variants.get(tag_ + ":active-j", 0) + 1
+                            cm[tag_].add(act_, want_t, sct, inft)
+                    push([tag_, g] + xyz + extra + [str(len(acto))] + gp_tokens(acto), htp)
+                    tg2 = ad[tag_] if massless else excl["tp-branch-massive-inactive"]
+                    push(["ad" + tag_[3:] if False else ("ad1tp" if tag_ == "var1tp" else "ad2tp"), g] + xyz + extra + [str(len(acto))] + gp_tokens(acto),
+                         lambda out, want_t=want_t, sct=sct, inft=inft, tg2=tg2: tg2.add(vals(out), want_t, sct, inft))
         c.count(("accS", n, na, tptype, massless), nontrivial=True, n=3)
     # ---------------------------------------------------------------- gravity_ignore_terms = 1, 2 (what WHFast sets)
     for k in ("forceI", "var1I"):
@@ -389,7 +448,7 @@ def tie_accelerations(c, rebound, exe):
         want = [v for i in range(n) for v in (q[i].ax, q[i].ay, q[i].az)]
         sc = [scale1(G, ps, da, i) + 1e-300 for i in range(n)]
         push(["ad1soft", str(n), d2h(G), d2h(sim.softening ** 2)] + gp_tokens(ps) + gp_tokens(da),
-             lambda out, want=want, sc=sc: excl["softening"].add(vals(out), want, sc, {}))
+             lambda out, want=want, sc=sc, rep=dict(N=n, G=G, softening=sim.softening, particles=ps, var=da): excl["softening"].add(vals(out), want, sc, rep))
         c.count(("excluded-softening", n), nontrivial=True)
     c.log("tie: %d model lines through drv_c16" % len(lines))
     out = run_driver(exe, lines)
@@ -401,6 +460,17 @@ def tie_accelerations(c, rebound, exe):
     for k in cm:
         cm[k].report(c, "corr")
     c.cov["excluded_points_measured_discrepancy"] = {k: {"values": v.n, "worst_rel": float("%.3g" % v.worst)} for k, v in excl.items() if v.n}
+    c.cov["N_active_code_variant_matched"] = variants
+    # the three inconsistencies make C16 false for softened systems / massive inactive particles: findings with signature-specific keys
+    for ek, fk, what in (("softening", "F20:var-ignores-softening",
+                          "reb_calculate_acceleration_var leaves softening out of r^2 while the force includes it: variational accelerations are not the derivative of the softened force"),
+                         ("var2-massive-testparticles", "F21:var2-ignores-N_active",
+                          "the second-order variational loop runs over all real pairs whatever N_active is: wrong when inactive particles have mass (testparticle_type 0)"),
+                         ("tp-branch-massive-inactive", "F22:var-testparticle-branch-ignores-N_active",
+                          "the single test-particle variation branches sum over all real j, the force only over active j: wrong when other inactive particles have mass")):
+        v = excl[ek]
+        if v.n and v.worst > 1e-9:
+            c.violation(fk, "%s (AD oracle: rel %.3g)" % (what, v.worst), v.first or {"rel": v.worst})
     for k in ad:
         bad = ad[k].report(c, "search")
         if bad is not None:
@@ -684,6 +754,194 @@ def tie_corrector_schedule(c, rebound, exe):
     if nbad:
         c.corr_break("reb_whfast_apply_corrector differs from the Lean schedule replayed through the exported primitives "
                      "(%d of %d values; first: order %d, %s particle %d)" % (nbad, ncmp, first["order"], "variational" if first["variational"] else "real", first["index"]), first)
+
+
+# ============================================================================ translator: derivatives.c -> RV/Gen/C16Deriv.lean, and its tie
+def regenerate_derivs(c):
+    import extract_c16
+    try:
+        text, fams, total = extract_c16.generate(REPO)
+    except Exception as ex:
+        c.corr_break("translator rv/extract_c16.py cannot translate derivatives.c: %s" % str(ex)[:300])
+        return None
+    write_if_changed(os.path.join(LEAN, "RV", "Gen", "C16Deriv.lean"), text)
+    try:
+        dtext, dinfo = extract_c16.generate_dispatch(REPO)
+        write_if_changed(os.path.join(LEAN, "RV", "Gen", "C16Dispatch.lean"), dtext)
+        c.cov["dispatch_table"] = dinfo
+        if dinfo["types"] < 12 or dinfo["c_functions"] < 65 or len(dinfo["documented"]) < 2:
+            c.corr_break("dispatch extraction found less than expected: %s" % dinfo)
+    except Exception as ex:
+        c.corr_break("translator cannot extract the vary() dispatch table from particle.py: %s" % str(ex)[:200])
+    src = open(os.path.join(REPO, "src", "derivatives.c")).read()
+    nsrc = len(re.findall(r"^struct reb_particle reb_particle_derivative_\w+\s*\(", src, flags=re.M))
+    c.cov["translator"] = {"functions_in_source": nsrc, "functions_translated": len(fams), "statements_translated": total,
+                           "pal_family": sum(1 for v in fams.values() if v == "pal"), "orbit_family": sum(1 for v in fams.values() if v == "orb")}
+    if nsrc != len(fams) or len(fams) != 65 or total < 1000:
+        c.corr_break("translator found %d of %d derivative functions (%d statements); expected 65 / >1000" % (len(fams), nsrc, total))
+    return fams
+
+
+def tie_generated_derivatives(c, rebound, exe, fams):
+    """the generated Lean functions on Float vs the compiled reb_particle_derivative_* (bitwise), and
+    palMap / orbMap vs reb_particle_from_pal / reb_particle_from_orbit"""
+    if not fams:
+        return
+    clib = rebound.clibrebound
+    P = rebound.Particle
+    cd = ctypes.c_double
+    clib.reb_particle_from_orbit.restype = P
+    clib.reb_particle_from_pal.restype = P
+    clib.reb_orbit_from_particle.restype = rebound.Orbit
+    out0 = run_driver(exe, ["derivcount"])
+    if out0[0].split() != [str(len(fams)), str(c.cov["translator"]["statements_translated"])]:
+        c.corr_break("driver was built from a different generated file: %s" % out0[0])
+    ncases = 120 if c.thorough else 25
+    lines, wants, metas = [], [], []
+    for case in range(ncases):
+        rng = c.rng.fork()
+        G = rng.choice([1.0, 39.47841760435743, rng.loguniform(1e-2, 1e2)])
+        M = rng.loguniform(0.1, 10)
+        m = M * rng.loguniform(1e-7, 0.3)
+        prim = P(m=M)     # at rest at the origin: the maps are relative to the primary
+        a = rng.loguniform(0.3, 30)
+        e = rng.choice([rng.uniform(0.0, 0.3), rng.uniform(0.3, 0.9)])
+        po = clib.reb_particle_from_orbit(cd(G), prim, cd(m), cd(a), cd(e), cd(rng.uniform(0.01, 2.8)), cd(rng.uniform(0, 6.28)),
+                                          cd(rng.uniform(0, 6.28)), cd(rng.uniform(0, 6.28)))
+        pa, pl, pk, ph, pix, piy, pp, pq = (cd() for _ in range(8))
+        clib.reb_tools_particle_to_pal(cd(G), po, prim, *[ctypes.byref(x) for x in (pa, pl, pk, ph, pix, piy)])
+        clib.reb_tools_solve_kepler_pal(ph, pk, pl, ctypes.byref(pp), ctypes.byref(pq))
+        o = clib.reb_orbit_from_particle(cd(G), po, prim)
+        palargs = [G, m, M, pa.value, pl.value, pk.value, ph.value, pix.value, piy.value, pp.value, pq.value]
+        orbargs = [G, m, M, o.a, o.e, o.inc, o.Omega, o.omega, o.f]
+        for name, fam in fams.items():
+            fn = getattr(clib, "reb_particle_derivative_" + name)
+            fn.restype = P
+            q = fn(cd(G), prim, po)
+            lines.append(" ".join(["deriv", name] + [d2h(v) for v in (palargs if fam == "pal" else orbargs)]))
+            wants.append([q.m, q.x, q.y, q.z, q.vx, q.vy, q.vz])
+            metas.append(("reb_particle_derivative_" + name, case))
+            c.count(("gen-deriv", name), nontrivial=True)
+        # constructors
+        q = clib.reb_particle_from_pal(cd(G), prim, cd(m), pa, pl, pk, ph, pix, piy)
+        lines.append(" ".join(["palmap"] + [d2h(v) for v in palargs]))
+        wants.append([q.m, q.x, q.y, q.z, q.vx, q.vy, q.vz]); metas.append(("reb_particle_from_pal", case))
+        q = clib.reb_particle_from_orbit(cd(G), prim, cd(m), *[cd(v) for v in orbargs[3:]])
+        lines.append(" ".join(["orbmap"] + [d2h(v) for v in orbargs]))
+        wants.append([q.m, q.x, q.y, q.z, q.vx, q.vy, q.vz]); metas.append(("reb_particle_from_orbit", case))
+        c.count(("gen-map", case % 4), nontrivial=True, n=2)
+    out = run_driver(exe, lines)
+    nv = nb = 0
+    first = None
+    worst = 0.0
+    for l, o_, w, mt in zip(lines, out, wants, metas):
+        if o_ == "bad-op":
+            nb += 7
+            first = first or dict(function=mt[0], line=l[:200], error="driver does not know this function")
+            continue
+        g = vals(o_)
+        for k in range(7):
+            nv += 1
+            if d2h(g[k]) != d2h(w[k]):
+                nb += 1
+                sc = max(abs(x) for x in w[1:4]) if 1 <= k <= 3 else (max(abs(x) for x in w[4:]) if k >= 4 else 1.0)
+                e = abs(g[k] - w[k]) / max(sc, 1e-300)
+                worst = max(worst, e)
+                if not e <= 1e-13 and first is None:
+                    first = dict(function=mt[0], case=mt[1], component=k, generated_lean=g, compiled_c=w, rel=e, op_line=l[:400])
+    c.cov.setdefault("comparisons", {})["generated_derivatives"] = {"values": nv, "not_bitwise": nb, "worst_rel": float("%.3g" % worst),
+                                                                    "functions": len(fams), "tol": 1e-13}
+    if first is not None:
+        c.corr_break("generated Lean translation of %s differs from the compiled function" % first["function"], first)
+
+
+def tie_dispatch(c, rebound, exe):
+    """the Lean dispatch model (on the generated table) vs the real Particle(variation=, variation2=): for every pair of
+    names incl. shortcuts and an unknown name, same C function / same kind of exception"""
+    clib = rebound.clibrebound
+    P = rebound.Particle
+    cd = ctypes.c_double
+    sim = rebound.Simulation()
+    sim.add(m=1.0)
+    sim.add(m=1e-3, a=1.0, e=0.1, inc=0.2, Omega=0.3, omega=0.4, f=0.5)
+    names = VARIATIONTYPES + ["l", "i", "x", "E"]
+    lines = ["dispatch1 " + v for v in names] + ["dispatch2 %s %s" % (u, v) for u in names for v in names]
+    out = run_driver(exe, lines)
+    nbad, first = 0, None
+    for l, want in zip(lines, out):
+        t = l.split()
+        kw = dict(variation=t[1]) if t[0] == "dispatch1" else dict(variation=t[1], variation2=t[2])
+        try:
+            pv = P(simulation=sim, particle=sim.particles[1], **kw)
+            got = "ok"
+        except ValueError:
+            got = "ValueError"
+        except AttributeError:
+            got = "AttributeError"
+        except Exception as ex:
+            got = type(ex).__name__
+        fn = getattr(clib, "reb_particle_derivative_" + want, None) if want != "ValueError" else None
+        if want == "ValueError":
+            ok = got == "ValueError"
+        elif fn is None:
+            ok = got == "AttributeError"
+        else:
+            fn.restype = P
+            pw = fn(cd(sim.G), sim.particles[0], sim.particles[1])
+            ok = got == "ok" and [pv.x, pv.y, pv.z, pv.vx, pv.vy, pv.vz, pv.m] == [pw.x, pw.y, pw.z, pw.vx, pw.vy, pw.vz, pw.m]
+        c.count(("dispatch", l), nontrivial=True)
+        if not ok:
+            nbad += 1
+            first = first or dict(call=l, model_says=want, python_layer=got)
+    c.cov.setdefault("comparisons", {})["vary_dispatch"] = {"calls": len(lines), "disagreements": nbad}
+    if nbad:
+        c.corr_break("Particle(variation=...) dispatch differs from the Lean model on the generated table (%d of %d calls)" % (nbad, len(lines)), first)
+        c.violation("python:vary-dispatch", "Particle(variation=%s) does not reach reb_particle_derivative_%s (%s)" %
+                    (first["call"].split()[1:], first["model_says"], first["python_layer"]), first)
+
+
+def tie_megno_bookkeeping(c, rebound, exe):
+    """reb_tools_megno_update / reb_simulation_megno / reb_simulation_lyapunov vs the Lean Float model, bit for bit"""
+    clib = rebound.clibrebound
+    cd = ctypes.c_double
+    clib.reb_simulation_megno.restype = cd
+    clib.reb_simulation_lyapunov.restype = cd
+    ncases = 200 if c.thorough else 40
+    lines, wants = [], []
+    for case in range(ncases):
+        rng = c.rng.fork()
+        n = rng.choice([1, 1, 2, 3, 5, 10, 40])
+        sgn = rng.choice([1.0, 1.0, -1.0])
+        t = 0.0 if rng.chance(0.05) else sgn * rng.loguniform(1e-3, 10)
+        sim = rebound.Simulation()
+        toks = ["megno"]
+        for k in range(n):
+            dt = sgn * rng.loguniform(1e-3, 1.0)
+            if k > 0 or t != 0.0:
+                t = t + dt
+            dY = rng.normal() * rng.choice([1.0, 1e-6, 1e3])
+            sim.t = t
+            clib.reb_tools_megno_update(ctypes.byref(sim), cd(dY), cd(dt))
+            toks += [d2h(t), d2h(dY), d2h(dt)]
+        lines.append(" ".join(toks))
+        wants.append([sim._megno_Ys, sim._megno_Yss, sim._megno_cov_Yt, sim._megno_var_t, sim._megno_mean_Y, sim._megno_mean_t,
+                      clib.reb_simulation_megno(ctypes.byref(sim)), clib.reb_simulation_lyapunov(ctypes.byref(sim)), float(sim._megno_n)])
+        c.count(("megno-update", n), nontrivial=n >= 2)
+    out = run_driver(exe, lines)
+    nv = nb = 0
+    first = None
+    for l, o_, w in zip(lines, out, wants):
+        t_ = o_.split()
+        g = [h2d(x) for x in t_[:8]] + [float(t_[8])]
+        for k in range(9):
+            nv += 1
+            if d2h(g[k]) != d2h(w[k]):
+                nb += 1
+                first = first or dict(field=["Ys", "Yss", "cov_Yt", "var_t", "mean_Y", "mean_t", "megno()", "lyapunov()", "n"][k],
+                                      model=g[k], impl=w[k], updates=(len(l.split()) - 1) // 3, op_line=l[:300])
+    c.cov.setdefault("comparisons", {})["megno_bookkeeping"] = {"values": nv, "not_bitwise": nb}
+    if nb:
+        c.corr_break("reb_tools_megno_update differs from the Lean Float model (%d of %d values; first: %s)" % (nb, nv, first["field"]), first)
 
 
 # ============================================================================ search: the 65 derivative constructors
@@ -1613,6 +1871,7 @@ def run(c):
         c.log("replay of", rp.get("key", rp.get("no_longer_checks", ["?"])[0] if isinstance(rp.get("no_longer_checks"), list) else "?"), "seed", c.seed, "tier", c.tier)
     d = build()
     rebound = use_scratch_rebound(d)
+    fams = regenerate_derivs(c)
     c.prove(["RV.Props.C16"])
     exe = lean_exe("drv_c16")
     c.cov["rule"] = ("tie: random particle sets (N 2..24, masses over 8 decades incl. zero, random G and length scale) with two random "
@@ -1642,6 +1901,9 @@ def run(c):
     run_phase(c, "tie-accelerations", lambda: tie_accelerations(c, rebound, exe), 120 * big)
     run_phase(c, "tie-com-rescale", lambda: tie_com_rescale(c, rebound, exe), 120 * big)
     run_phase(c, "tie-corrector-schedule", lambda: tie_corrector_schedule(c, rebound, exe), 60 * big)
+    run_phase(c, "tie-generated-derivatives", lambda: tie_generated_derivatives(c, rebound, exe, fams), 60 * big)
+    run_phase(c, "tie-megno-bookkeeping", lambda: tie_megno_bookkeeping(c, rebound, exe), 60 * big)
+    run_phase(c, "tie-dispatch", lambda: tie_dispatch(c, rebound, exe), 60 * big)
     run_phase(c, "derivatives", lambda: search_derivatives(c, rebound), 120 * big)
     run_phase(c, "shadow", lambda: search_shadow(c, rebound), 150 * (10 if c.thorough else 1))
     run_phase(c, "rescale-megno", lambda: search_rescale_megno(c, rebound), 60 * big)
